@@ -125,6 +125,13 @@ Theorem C16_holds_terminate_touches_self_only : forall c s k i k', clean c -> re
 Proof. exact deliver_live_touches_self. Qed.
 Print Assumptions C16_holds_terminate_touches_self_only.
 
+(* with the last switch off a mailbox goroutine changes its own object only, in every state — also
+   when it handles the stale terminate of an object removed long ago whose index has a new owner *)
+Theorem C16_holds_mailbox_touches_own_object_only : forall c s k s' o k', terminate_by_index c = false ->
+  step c s (LDeliver k) = Some (s', o) -> k' <> k -> actors s' k' = actors s k'.
+Proof. exact deliver_touches_self. Qed.
+Print Assumptions C16_holds_mailbox_touches_own_object_only.
+
 Theorem C16_remove_maps_frame : forall c s i s' o j, step c s (LRemove i) = Some (s', o) -> j <> i ->
   objects s' j = objects s j /\ boxes s' j = boxes s j.
 Proof. exact remove_maps_frame. Qed.
@@ -164,6 +171,14 @@ Theorem C16_refuted_remove_pending_slot : exists s o, run only_remove_pending in
   live s 1%nat 5 /\ live s 2%nat 5 /\ o = [OIndex 5; ORet true; OIndex 5; ORet true; ORet true].
 Proof. exact refuted_remove_pending. Qed.
 Print Assumptions C16_refuted_remove_pending_slot.
+
+(* the terminate action removes by index: a terminate still queued when its object is removed by
+   Service.Remove later terminates the object that was given the freed index *)
+Theorem C16_refuted_terminate_by_index : exists s o, run only_terminate_by_index init wit_terminate_by_index = Some (s, o) /\
+  st s 2%nat = Removed /\ a_hooks (actors s 2%nat) = 1 /\ objects s 5 = None /\
+  o = [OIndex 5; ORet true; ORet true; OIndex 5; ORet true].
+Proof. exact refuted_terminate_by_index. Qed.
+Print Assumptions C16_refuted_terminate_by_index.
 
 (* the hypotheses are met by a concrete run: add (first draw collides with object 1), subscribe,
    call, self-terminate by post with a call queued behind it, call again after the removal *)
